@@ -1,15 +1,35 @@
 import Goflow.Gen.History
 import Goflow.Gen.Frame
+import Goflow.Gen.Config
 /-! C15 generator: a sequential prologue announces templates and sampling rates; then data-only
     datagrams of every protocol from several exporters are staged and processed in parallel. -/
 namespace Goflow.Gen.C15
 open Goflow Goflow.Gen Goflow.Gen.History Goflow.Gen.Netflow Goflow.Spec.Netflow
 
+/-- a configuration that registers one tunnel parser on two UDP ports and maps a bit range of the tunnel header under
+    the per-packet port key (`udp6081` / `udp6082`) to two different custom fields: the key list of a parser is
+    extended per packet, so two workers dissecting frames to the two ports at the same time must not see each other's key -/
+def portsConfig : Format.RawConfig :=
+  { protobuf := [⟨"vni_a", 2001, "varint", false⟩, ⟨"vni_b", 2002, "varint", false⟩],
+    ports := [⟨"udp", "dst", 6081, "geneve"⟩, ⟨"udp", "dst", 6082, "geneve"⟩],
+    layers := [{ layer := "udp6081", encap := true, offset := 32, length := 24, destination := "vni_a" },
+               { layer := "udp6082", encap := true, offset := 32, length := 24, destination := "vni_b" }] }
+
+/-- Ethernet / IPv4 / UDP to `dport` / Geneve (VNI) / inner Ethernet / IPv4 / UDP -/
+def geneveFrame (dport vni : Nat) : G Bytes := do
+  let inner : Bytes := (← bytesOf 12) ++ [0x08, 0x00] ++
+    [0x45, 0, 0, 28] ++ (← bytesOf 2) ++ [0, 0, 64, 17, 0, 0] ++ (← bytesOf 8) ++ encBE 2 1000 ++ encBE 2 2000 ++ [0, 8, 0, 0]
+  let gnv : Bytes := [0, 0, 0x65, 0x58] ++ encBE 3 vni ++ [0]
+  let udpLen := 8 + gnv.length + inner.length
+  pure ((← bytesOf 12) ++ [0x08, 0x00] ++
+    [0x45, 0] ++ encBE 2 (20 + udpLen) ++ (← bytesOf 2) ++ [0, 0, 63, 17, 0, 0] ++ (← bytesOf 8) ++
+    encBE 2 (← range 1024 60000) ++ encBE 2 dport ++ encBE 2 udpLen ++ [0, 0] ++ gnv ++ inner)
+
 def gen (k : Nat) : G (List String) := do
   let mut out : List String := []
   for i in [0:k] do
     let pipe := if i % 2 = 0 then "nf" else "auto"
-    out := out ++ header
+    out := out ++ header ++ [Format.cfgOp "cp" portsConfig, "pipe sfp sflow cp"]
     let exps ← genExporters
     let mut clock := 1700000000000000000
     -- prologue: per exporter, version: a data template, an options template with a sampling element, a rate
@@ -56,6 +76,17 @@ def gen (k : Nat) : G (List String) := do
         out := out ++ ["stage " ++ ((pktLine pipe (exps.getD ei default) clock (encode m)).drop 4).toString]
       else if kind < 6 ∨ pipe = "nf" then
         let e ← pick exps
+        if (← chance 1 2) then
+          -- sFlow datagrams on the pipe with the port configuration: frames to both registered ports
+          -- every sample a flow sample with one raw Ethernet header: the workers spend their time in the dissector
+          let ns ← range 2 8
+          let samples ← listOf ns (do
+            let f ← geneveFrame (← pick [6081, 6082, 6082, 6081, 53]) (← range 1 0xffffff)
+            pure (Spec.Sflow.SSample.flow (← bitsVal 32) (← bitsVal 8) (← bitsVal 24) (← listOf 5 (bitsVal 32))
+              [Spec.Sflow.SRecord.rawHeader 1 (← bitsVal 32) (← bitsVal 32) f]))
+          let dg : Spec.Sflow.Datagram := ⟨← bytesOf 4, ← bitsVal 32, ← bitsVal 32, ← bitsVal 32, samples⟩
+          out := out ++ ["stage " ++ ((pktLine "sfp" e clock (Spec.Sflow.encode dg)).drop 4).toString]
+        else
         out := out ++ ["stage " ++ ((pktLine pipe e clock (← v5Datagram)).drop 4).toString]
       else
         let e ← pick exps
